@@ -26,6 +26,7 @@ def run(check):
     check.run_rule('C10.R1c', lambda c: rm.rule_tables(
         c, M.merge(), 'C10.R1c', ('conc',), 'every parameter standing for two inputs passes through _concile_meta',
         witness="merge(s('a, b'), s('a, *, b=1')) must require b"))
+    check.run_rule('C10.R1s', lambda c: rm.rule_kwo_and_stars(c, M.merge(), 'C10.R1c', ('conc',)))
     check.run_rule('C10.R4m', lambda c: rm.rule_tables(
         c, M.merge(), 'C10.R4', ('order',), 'positional buckets are filled in zip order',
         witness="merge(s('a, *args'), s('a, b, c')) must be (a, b, c, /)"))
